@@ -13,6 +13,26 @@ def c21 (args : List String) : String :=
       | none => "err"
     | some _ => "err"
     | none => "bad-op"
+  | ["fmt", s] =>
+    let bad := String.intercalate "|" (List.replicate 16 "E:#VALUE!")
+    match s.toInt? with
+    | some (Int.ofNat n) =>
+      match fromSerial n with
+      | some t =>
+        let d := showDigits (tokD t); let dd := showDigits (tokDD t)
+        let ddd := dayNamesShortEn.getD (dayIndexFromSunday n) "?"
+        let dddd := dayNamesEn.getD (dayIndexFromSunday n) "?"
+        let m := showDigits (tokM t); let mm := showDigits (tokMM t)
+        let mmm := monthsShortEn.getD (t.m - 1) "?"
+        let mmmm := monthsEn.getD (t.m - 1) "?"
+        let mmmmm := monthsLetterEn.getD (t.m - 1) "?"
+        let yy := showDigits (tokYY t); let yyyy := showDigits (tokYYYY t)
+        String.intercalate "|" [d, dd, ddd, dddd, m, mm, mmm, mmmm, mmmmm, yy, yyyy,
+          s!"{dd}/{mm}/{yyyy}", s!"{d}/{m}/{yy}", s!"{mm}-{dd}-{yy}", s!"{d}-{mmm}-{yyyy}",
+          s!"{dddd}, {mmmm} {d}, {yyyy}"]
+      | none => bad
+    | some _ => bad
+    | none => "bad-op"
   | ["engine", s] =>
     -- YEAR MONTH DAY WEEKDAY(type 1: Sunday = 1) DATE(y,m,d) typed-ISO-value
     match s.toInt? with
